@@ -1,4 +1,5 @@
 import TRV.Model.Policy
+import TRV.Model.Params
 import TRV.Generated.LogicRunner
 /-!
 # Tie theorems: the TCP method policy model equals the trees REGENERATED from `traceroute/runner.go`
@@ -70,6 +71,15 @@ theorem tie_e2e_override (isTcp : Bool) (m : Method) (okRun noDest : Bool) :
   cases isTcp <;> cases m <;> cases okRun <;> cases noDest <;>
     simp [LogicRunner.runE2eProbeOnce.run, e2eMethod]
 
+/-- the TTL guard at the top of `runTracerouteOnce` rejects exactly the requests the parameter model's
+    range check rejects (`Params.ttlInRange` on both bounds, on the un-narrowed `int` values) -/
+theorem tie_ttl_guard (min max : Int) :
+    (LogicRunner.ttlGuard.run { «params.MinTTL» := min, «params.MaxTTL» := max }).rets.isEmpty
+      = (Params.ttlInRange min && Params.ttlInRange max) := by
+  unfold LogicRunner.ttlGuard.run Params.ttlInRange
+  (repeat' split) <;> simp_all <;> omega
+
+#print axioms tie_ttl_guard
 #print axioms tie_fallback
 #print axioms tie_e2e_override
 
